@@ -4,7 +4,7 @@ Require Import Cirbo.Model.Base Cirbo.Model.Gate Cirbo.Model.Den Cirbo.Model.Cir
         Cirbo.Model.Eval Cirbo.Model.Sem Cirbo.Model.History Cirbo.Model.WF.
 Require Import Cirbo.Generated.Operators Cirbo.Generated.GateTypes.
 Require Import Cirbo.Proofs.DictFacts Cirbo.Proofs.WFBase Cirbo.Proofs.WFEmplace Cirbo.Proofs.WFStep
-        Cirbo.Proofs.OpFacts Cirbo.Proofs.SemExt Cirbo.Proofs.SemBench Cirbo.Proofs.SemBench2.
+        Cirbo.Proofs.OpFacts Cirbo.Proofs.SemExt Cirbo.Proofs.SemBench Cirbo.Proofs.SemBench2 Cirbo.Proofs.SemEvaluate2.
 
 Lemma rules_denotation a b x bs :
   den LT [a; b] = den AND [negb a; b] /\ den LEQ [a; b] = den OR [negb a; b] /\
@@ -92,3 +92,13 @@ Proof.
   eexists; split; [vm_compute; reflexivity|]. split; [vm_compute; reflexivity|].
   apply total_onb_sound; vm_compute; reflexivity.
 Qed.
+
+Lemma into_bench_evaluate' c fresh c' bs r r' :
+  Inv c -> arity_ok c -> into_bench c fresh = Ok c' ->
+  evaluate c (map inj bs) = Ok r -> evaluate c' (map inj bs) = Ok r' -> r = r'.
+Proof. intros [W N] A H. exact (SemEvaluate2.into_bench_evaluate c fresh c' bs r r' W N A H). Qed.
+
+Lemma into_bench_truth_table' c fresh c' t t' :
+  Inv c -> arity_ok c -> into_bench c fresh = Ok c' ->
+  get_truth_table c = Ok t -> get_truth_table c' = Ok t' -> t = t'.
+Proof. intros [W N] A H. exact (SemEvaluate2.into_bench_truth_table c fresh c' t t' W N A H). Qed.
